@@ -165,8 +165,8 @@ class PageCache(Entity):
             yield self._disk_write_latency_s
             self._dirty_writebacks += 1
 
-        del self._pages[oldest_id]
-        self._evictions += 1
+        if self._pages.pop(oldest_id, None) is not None:
+            self._evictions += 1
 
     def _ensure_space(self) -> Generator[float]:
         """Evict pages until there is room for at least one new page."""
@@ -175,9 +175,13 @@ class PageCache(Entity):
 
     def _load_page(self, page_id: int) -> Generator[float]:
         """Load a page from disk into cache."""
-        yield from self._ensure_space()
         yield self._disk_read_latency_s
-        self._pages[page_id] = _CachedPage(page_id=page_id)
+        if page_id in self._pages:
+            return  # loaded by a concurrent reader while the disk read was in flight
+        # Make room only now: nothing may run between the capacity check and the insert
+        yield from self._ensure_space()
+        if page_id not in self._pages:
+            self._pages[page_id] = _CachedPage(page_id=page_id)
 
     def read_page(self, page_id: int) -> Generator[float]:
         """Read a page, serving from cache if present.
@@ -197,8 +201,9 @@ class PageCache(Entity):
         for i in range(1, self._readahead + 1):
             ahead_id = page_id + i
             if ahead_id not in self._pages and len(self._pages) < self._capacity:
-                yield from self._ensure_space()
                 yield self._disk_read_latency_s
+                if ahead_id in self._pages or len(self._pages) >= self._capacity:
+                    continue  # the cache filled up while the disk read was in flight
                 self._pages[ahead_id] = _CachedPage(page_id=ahead_id)
                 self._readaheads += 1
 
